@@ -1,0 +1,86 @@
+//go:build verif
+
+package gohlslib
+
+import (
+	"context"
+	"sort"
+	"sync/atomic"
+)
+
+// This file only exists with the "verif" build tag. It gives the verification harness
+// (outside this repository) read-only views of internal state and scheduling points.
+
+var verifYieldFn atomic.Value // func(string)
+
+// VerifSetYield installs (or, with nil, removes) the function called at every yield point.
+func VerifSetYield(f func(point string)) {
+	if f == nil {
+		verifYieldFn.Store((func(string))(nil))
+		return
+	}
+	verifYieldFn.Store(f)
+}
+
+func verifYield(point string) {
+	if f, ok := verifYieldFn.Load().(func(string)); ok && f != nil {
+		f(point)
+	}
+}
+
+// VerifPathCount returns the number of paths registered in the muxer's URL table.
+func (m *Muxer) VerifPathCount() int {
+	m.server.mutex.RLock()
+	defer m.server.mutex.RUnlock()
+	return len(m.server.pathHandlers)
+}
+
+// VerifPaths returns the registered paths, sorted.
+func (m *Muxer) VerifPaths() []string {
+	m.server.mutex.RLock()
+	defer m.server.mutex.RUnlock()
+	out := make([]string, 0, len(m.server.pathHandlers))
+	for p := range m.server.pathHandlers {
+		out = append(out, p)
+	}
+	sort.Strings(out)
+	return out
+}
+
+// VerifSegmentQueue exposes clientSegmentQueue to the harness.
+type VerifSegmentQueue struct {
+	q *clientSegmentQueue
+}
+
+// VerifNewSegmentQueue allocates a queue.
+func VerifNewSegmentQueue() *VerifSegmentQueue {
+	q := &clientSegmentQueue{}
+	q.initialize()
+	return &VerifSegmentQueue{q: q}
+}
+
+// Push pushes a segment.
+func (v *VerifSegmentQueue) Push(payload []byte) {
+	v.q.push(&segmentData{payload: payload})
+}
+
+// Pull pulls a segment.
+func (v *VerifSegmentQueue) Pull(ctx context.Context) ([]byte, bool) {
+	d, ok := v.q.pull(ctx)
+	if !ok {
+		return nil, false
+	}
+	return d.payload, true
+}
+
+// WaitUntilSizeIsBelow waits until the queue holds at most n segments... as the library does.
+func (v *VerifSegmentQueue) WaitUntilSizeIsBelow(ctx context.Context, n int) bool {
+	return v.q.waitUntilSizeIsBelow(ctx, n)
+}
+
+// Len returns the number of queued segments.
+func (v *VerifSegmentQueue) Len() int {
+	v.q.mutex.Lock()
+	defer v.q.mutex.Unlock()
+	return len(v.q.queue)
+}
